@@ -412,6 +412,10 @@ class Evaluator:
                     and (bk == "this" or bk.startswith("this.")) and len(base.p) == 1:
                 # construct contexts are attribute dictionaries: ctx["name"] is ctx.name
                 return Term.atom(bk + "." + node.slice.value)
+            if isinstance(node.slice, ast.Constant) and isinstance(node.slice.value, str) and bk.startswith("{"):
+                dp_ = dict_parts(bk)
+                if dp_ is not None and not dp_[0] and node.slice.value in dp_[1]:
+                    return parse_key(dp_[1][node.slice.value])  # {k: v}["k"] is v
             idx = self.ev(node.slice)
             if idx.is_const() and idx.value().denominator == 1 and bk.startswith("divmod("):
                 return elem_term(bk, int(idx.value()))
